@@ -263,6 +263,25 @@ impl MetadataClient for LocalMetadataClient {
         Ok(())
     }
 
+    async fn complete_compaction_with_target(
+        &self,
+        source_chunks: &[String],
+        target: &ChunkMetadata,
+    ) -> Result<()> {
+        if let Some(missing) = source_chunks
+            .iter()
+            .find(|path| !self.chunks.contains_key(path.as_str()))
+        {
+            return Err(crate::Error::Metadata(format!(
+                "Compaction source chunk no longer in catalog: {}",
+                missing
+            )));
+        }
+
+        self.register_chunk(&target.path, target).await?;
+        self.complete_compaction(source_chunks, &target.path).await
+    }
+
     async fn update_compaction_status(&self, job_id: &str, status: CompactionStatus) -> Result<()> {
         if let Some(mut job) = self.compaction_jobs.get_mut(job_id) {
             job.status = status;
